@@ -16,6 +16,8 @@ import (
 	"go/token"
 	"go/types"
 	"strings"
+
+	"golang.org/x/tools/go/ssa"
 )
 
 type TV struct {
@@ -31,6 +33,8 @@ type Binding struct {
 }
 
 type ExprCtx struct {
+	fnName func(*ssa.Function) string
+	global func(pkg *types.Package, name string) (TV, bool)
 	w      *World
 	cs     *ContractSet
 	st     *State
@@ -344,6 +348,11 @@ func (c *ExprCtx) ident(name string) TV {
 		if k, ok := c.pkg.Scope().Lookup(name).(*types.Const); ok {
 			return c.constTV(k)
 		}
+		if _, ok := c.pkg.Scope().Lookup(name).(*types.Var); ok && c.global != nil {
+			if tv, ok := c.global(c.pkg, name); ok {
+				return tv
+			}
+		}
 	}
 	fail("unknown identifier %q", name)
 	return TV{}
@@ -352,6 +361,9 @@ func (c *ExprCtx) ident(name string) TV {
 func (c *ExprCtx) deref(tv TV) TV {
 	p, ok := tv.V.(VPtr)
 	if !ok {
+		if o, isO := tv.V.(VOpaque); isO {
+			return TV{V: VOpaque{T: app(c.w.st.declare("u_deref", []string{sortU}, sortU), o.T)}}
+		}
 		fail("cannot dereference %T", tv.V)
 	}
 	var et types.Type
@@ -708,6 +720,12 @@ func isNilTV(tv TV) bool {
 
 func ptrEq(w *World, p, q VPtr) string {
 	bothNil := mkAnd(p.Nil, q.Nil)
+	if p.Root != nil && q.Root != nil && p.Root != q.Root && !p.IDU && !q.IDU &&
+		((p.Root.Local && p.Root.ID > q.Root.ID) || (q.Root.Local && q.Root.ID > p.Root.ID)) {
+		// an allocation is distinct from every object that a pointer value
+		// created before it can refer to
+		return bothNil
+	}
 	neither := mkAnd(mkNot(p.Nil), mkNot(q.Nil))
 	return mkOr(bothNil, mkAnd(neither, mkEq(w.ptrID(VPtr{Root: p.Root, Arr: p.Arr, Idx: p.Idx, Path: p.Path, Nil: "false", U: p.U}),
 		w.ptrID(VPtr{Root: q.Root, Arr: q.Arr, Idx: q.Idx, Path: q.Path, Nil: "false", U: q.U}))))
@@ -838,15 +856,45 @@ func (c *ExprCtx) call(x *ast.CallExpr) TV {
 		// binding(f, k): the k-th captured value of a known closure / bound method value
 		a := c.eval(x.Args[0])
 		fv, ok := a.V.(VFunc)
+		if lit, isLit := x.Args[1].(*ast.BasicLit); isLit && lit.Kind == token.STRING {
+			// by name of the captured variable
+			want := constant.StringVal(constant.MakeFromLiteral(lit.Value, lit.Kind, 0))
+			if fn, isFn := fv.Fn.(*ssa.Function); ok && isFn {
+				for i, fvar := range fn.FreeVars {
+					if fvar.Name() == want && i < len(fv.Bindings) {
+						return TV{V: fv.Bindings[i], T: fvar.Type()}
+					}
+				}
+			}
+			return TV{V: VOpaque{T: c.w.st.fresh("binding", sortU)}}
+		}
 		k := c.eval(x.Args[1])
 		if !ok || k.C == nil {
-			fail("binding: not a known function value")
+			// not a known closure on this path: the captured value is arbitrary
+			return TV{V: VOpaque{T: c.w.st.fresh("binding", sortU)}}
 		}
 		ki, _ := constant.Int64Val(constant.ToInt(k.C))
 		if int(ki) >= len(fv.Bindings) {
 			fail("binding: index out of range")
 		}
+		if fn, ok := fv.Fn.(*ssa.Function); ok && int(ki) < len(fn.FreeVars) {
+			return TV{V: fv.Bindings[ki], T: fn.FreeVars[ki].Type()}
+		}
 		return TV{V: VOpaque{T: c.w.fold(c.st, fv.Bindings[ki])}}
+	case "fnis":
+		// fnis(f, "pkg.Func$1"): f is known to be this function
+		a := c.eval(x.Args[0])
+		lit, ok := x.Args[1].(*ast.BasicLit)
+		if !ok {
+			fail("fnis needs a string literal")
+		}
+		want := constant.StringVal(constant.MakeFromLiteral(lit.Value, lit.Kind, 0))
+		fv, ok := a.V.(VFunc)
+		if !ok || c.fnName == nil {
+			return TV{C: constant.MakeBool(false)}
+		}
+		fn, _ := fv.Fn.(*ssa.Function)
+		return TV{C: constant.MakeBool(fn != nil && c.fnName(fn) == want)}
 	case "tuple":
 		// tuple(a, b, ...): the fold of a struct value with these fields
 		t := "u_nil"
